@@ -1,4 +1,241 @@
 // further commands (grown per property)
-pub fn run(_cmd: &str, _args: &[&str]) -> String {
-    "unknown-command".into()
+use crate::{fen_of, move_attrs, opt_piece_int, piece_int, state_of};
+use weechess_core::{Color, Move, MoveQuery, Piece, PieceIndex, Side, Square, State};
+
+fn piece_of_int(i: u8) -> Piece {
+    match i {
+        1 => Piece::Pawn,
+        2 => Piece::Knight,
+        3 => Piece::Bishop,
+        4 => Piece::Rook,
+        5 => Piece::Queen,
+        6 => Piece::King,
+        _ => Piece::None,
+    }
+}
+
+fn color_of_int(i: u8) -> Color {
+    if i == 0 {
+        Color::White
+    } else {
+        Color::Black
+    }
+}
+
+fn sq(i: u8) -> Square {
+    Square::try_from(i).unwrap()
+}
+
+fn fields(m: &Move) -> [u64; 10] {
+    let o: u8 = m.origin().into();
+    let d: u8 = m.destination().into();
+    [
+        m.as_raw() as u64,
+        o as u64,
+        d as u64,
+        opt_piece_int(m.promotion()) as u64,
+        piece_int(m.piece()) as u64,
+        if m.color() == Color::White { 0 } else { 1 },
+        opt_piece_int(m.capture()) as u64,
+        m.is_en_passant() as u64,
+        match m.castle_side() {
+            None => 0,
+            Some(Side::King) => 1,
+            Some(Side::Queen) => 2,
+        },
+        m.is_double_pawn() as u64,
+    ]
+}
+
+fn checksum(ms: &[Move]) -> u64 {
+    let md: u64 = 1000000007;
+    let mut acc: u64 = 17;
+    for m in ms {
+        for x in fields(m) {
+            acc = (acc * 131 + (x % md) + 7) % md;
+        }
+    }
+    acc
+}
+
+fn build(c: Color, p: Piece, o: Square, d: Square, cap: u8, pro: u8) -> Move {
+    let pi = PieceIndex::new(c, p);
+    if cap == 0 && pro == 0 {
+        Move::by_moving(pi, o, d)
+    } else if pro == 0 {
+        Move::by_capturing(pi, o, d, piece_of_int(cap))
+    } else if cap == 0 {
+        Move::by_promoting(pi, o, d, piece_of_int(pro))
+    } else {
+        Move::by_capture_promoting(pi, o, d, piece_of_int(cap), piece_of_int(pro))
+    }
+}
+
+pub fn run(cmd: &str, args: &[&str]) -> String {
+    match (cmd, args) {
+        ("moveblock", [c, p, o]) => {
+            let c = color_of_int(c.parse().unwrap());
+            let p = piece_of_int(p.parse().unwrap());
+            let o = sq(o.parse().unwrap());
+            let mut ms: Vec<Move> = Vec::new();
+            for d in 0..64u8 {
+                for cap in [0u8, 1, 2, 3, 4, 5] {
+                    for pro in [0u8, 2, 3, 4, 5] {
+                        ms.push(build(c, p, o, sq(d), cap, pro));
+                    }
+                }
+                ms.push(Move::by_en_passant(PieceIndex::new(c, p), o, sq(d)));
+            }
+            for side in [Side::King, Side::Queen] {
+                ms.push(Move::by_castling(c, side));
+            }
+            // equality is attribute equality, and serialisation round-trips
+            let mut bad = 0usize;
+            for m in ms.iter() {
+                let mut buf = Vec::new();
+                ciborium::into_writer(m, &mut buf).unwrap();
+                let back: Move = ciborium::from_reader(&buf[..]).unwrap();
+                if back != *m || fields(&back) != fields(m) {
+                    bad += 1;
+                }
+            }
+            for i in 0..ms.len() {
+                // neighbours in the enumeration differ in some attribute, so they must be unequal
+                if i + 1 < ms.len() && (ms[i] == ms[i + 1]) != (fields(&ms[i])[1..] == fields(&ms[i + 1])[1..]) {
+                    bad += 1;
+                }
+            }
+            format!("{} {} {}", ms.len(), checksum(&ms), bad)
+        }
+        ("moveone", [c, p, o, d, cap, pro]) => {
+            let m = build(
+                color_of_int(c.parse().unwrap()),
+                piece_of_int(p.parse().unwrap()),
+                sq(o.parse().unwrap()),
+                sq(d.parse().unwrap()),
+                cap.parse().unwrap(),
+                pro.parse().unwrap(),
+            );
+            move_attrs(&m)
+        }
+        ("resolve", [fen, f, t, pr]) => match state_of(fen) {
+            None => "badfen".into(),
+            Some(s) => {
+                let mut q = MoveQuery::new();
+                q.set_origin(sq(f.parse().unwrap()));
+                q.set_destination(sq(t.parse().unwrap()));
+                let pr: u8 = pr.parse().unwrap();
+                if pr != 0 {
+                    q.set_promotion(piece_of_int(pr));
+                }
+                let before = fen_of(&s);
+                let r = State::by_performing_moves(&s, &[q]);
+                if fen_of(&s) != before {
+                    return "input-mutated".into();
+                }
+                match r {
+                    Ok(n) => format!("ok {}", fen_of(&n)),
+                    Err(weechess_core::MovePerformError::AmbiguousMove) => "ambiguous".into(),
+                    Err(weechess_core::MovePerformError::UnknownMove) => "unknown".into(),
+                    Err(weechess_core::MovePerformError::IllegalEnPassant) => "illegal-ep".into(),
+                }
+            }
+        },
+        ("tableops", [nt, nb, ops]) => {
+            use weechess_engine::searcher::verif::TableProbe;
+            assert!(usize::BITS == 64);
+            let t = TableProbe::new(nt.parse().unwrap(), nb.parse().unwrap());
+            let mut out: Vec<String> = Vec::new();
+            for op in ops.split(',') {
+                let a: Vec<&str> = op.split(':').collect();
+                match a[0] {
+                    "i" => {
+                        t.insert(
+                            a[1].parse().unwrap(),
+                            (a[2].parse().unwrap(), a[3].parse().unwrap(), a[4].parse().unwrap(), a[5].parse().unwrap(), a[6].parse().unwrap()),
+                        );
+                        out.push(format!("n{}", t.entries()));
+                    }
+                    _ => match t.find(a[1].parse().unwrap()) {
+                        None => out.push("-".into()),
+                        Some(e) => out.push(format!("{}:{}:{}:{}:{}", e.0, e.1, e.2, e.3, e.4)),
+                    },
+                }
+            }
+            format!("{} max={}", out.join(","), t.max_entries())
+        }
+        ("tableconc", [nt, nb, threads, seed, nops, nkeys]) => {
+            // threads hammer one real table; every value carries (thread, op index, key tag) so that a lookup answer can be
+            // attributed: it must be a value some thread inserted under exactly that key, and after the threads have joined
+            // the value of every key must be the LAST insert of that key by one of the threads.
+            use weechess_engine::searcher::verif::TableProbe;
+            use std::sync::Arc;
+            let nthreads: usize = threads.parse().unwrap();
+            let nops: usize = nops.parse().unwrap();
+            let nkeys: u64 = nkeys.parse().unwrap();
+            let seed: u64 = seed.parse().unwrap();
+            let t = Arc::new(TableProbe::new(nt.parse().unwrap(), nb.parse().unwrap()));
+            let cap = t.max_entries();
+            let keyof = move |i: u64| -> u64 { i.wrapping_mul(0x9E3779B97F4A7C15) ^ (seed << 7) };
+            let mut handles = Vec::new();
+            for th in 0..nthreads {
+                let t = t.clone();
+                handles.push(std::thread::spawn(move || {
+                    let mut x: u64 = seed ^ (th as u64 + 1).wrapping_mul(0x2545F4914F6CDD1D);
+                    let mut bad: Vec<String> = Vec::new();
+                    let mut last: std::collections::HashMap<u64, usize> = std::collections::HashMap::new();
+                    for i in 0..nops {
+                        x ^= x << 13; x ^= x >> 7; x ^= x << 17;
+                        let ki = x % nkeys;
+                        let k = keyof(ki);
+                        if (x >> 40) % 2 == 0 {
+                            t.insert(k, (0, (th * 1000003 + i) as u32, ki as usize, th, i as i32));
+                            last.insert(ki, i);
+                        } else if let Some(e) = t.find(k) {
+                            if e.2 as u64 != ki { bad.push(format!("find({}) returned an entry stored under key tag {}", ki, e.2)); }
+                            if e.1 != (e.3 * 1000003 + e.4 as usize) as u32 { bad.push(format!("torn entry for key {}", ki)); }
+                        }
+                        if t.entries() > cap { bad.push("entries above capacity".into()); }
+                    }
+                    (bad, last)
+                }));
+            }
+            let mut bad: Vec<String> = Vec::new();
+            let mut lasts: Vec<std::collections::HashMap<u64, usize>> = Vec::new();
+            for h in handles {
+                let (b, l) = h.join().unwrap();
+                bad.extend(b);
+                lasts.push(l);
+            }
+            let mut present = 0usize;
+            for ki in 0..nkeys {
+                if let Some(e) = t.find(keyof(ki)) {
+                    present += 1;
+                    if e.2 as u64 != ki { bad.push(format!("final find({}) has key tag {}", ki, e.2)); }
+                    match lasts.get(e.3).and_then(|m| m.get(&ki)) {
+                        Some(i) if *i as i32 == e.4 => {}
+                        _ => bad.push(format!("final value of key {} is not the last insert of thread {}", ki, e.3)),
+                    }
+                }
+            }
+            if t.entries() > cap || present > t.entries() { bad.push(format!("count: present {} entries {} cap {}", present, t.entries(), cap)); }
+            if bad.is_empty() { format!("ok present={} entries={}", present, t.entries()) } else { format!("BAD {}", bad[..bad.len().min(3)].join("; ")) }
+        }
+        ("hashstream", [seed]) => {
+            use rand::RngCore;
+            use rand::SeedableRng;
+            let mut rng = rand_chacha::ChaCha8Rng::seed_from_u64(seed.parse().unwrap());
+            (0..1038).map(|_| rng.next_u64().to_string()).collect::<Vec<_>>().join(",")
+        }
+        ("hash", [seed, fen]) => match state_of(fen) {
+            None => "badfen".into(),
+            Some(s) => {
+                use rand::SeedableRng;
+                let mut rng = rand_chacha::ChaCha8Rng::seed_from_u64(seed.parse().unwrap());
+                let h = weechess_core::ZobristHasher::with(&mut rng);
+                h.hash(&s).to_string()
+            }
+        },
+        _ => "unknown-command".into(),
+    }
 }
